@@ -172,6 +172,48 @@ def check_single(case):
 
 
 @st.composite
+def composite_cases(draw, tier):
+    cls = draw(st.sampled_from(["monoidal", "rigid"]))
+    spec = draw(gen.diagrams(cls, max_boxes=6, max_width=4, min_boxes=2,
+                             names=["a", "b"], max_arity=2))
+    n = len(spec["layers"])
+    return {"d": spec, "i": draw(st.integers(0, n)),
+            "j": draw(st.integers(0, n)), "left": draw(st.booleans())}
+
+
+def check_composite(case):
+    """ Diagrams whose boxes are themselves diagrams (the slices of a
+    foliation): a move is refused with an interchanger error exactly when the
+    model says the two slices share a wire, and otherwise permutes them. """
+    from discopy.rewriting import InterchangerError
+    d = specs.build(case["d"]).foliation()
+    n = len(d)
+    i, j, left = case["i"] % max(n, 1), case["j"] % max(n, 1), case["left"]
+    if n < 2 or abs(i - j) != 1:
+        return dict(nt=False, labels=["n/a"])
+    lo = min(i, j)
+    ars = arity_list(d)
+    options = specs.model_swap(ars[lo], ars[lo + 1])
+    if not options:
+        common.expect_raises(
+            lambda: d.interchange(i, j, left=left), (InterchangerError,),
+            "C05:wired-on-the-way-not-refused",
+            "interchange({}, {}, left={}) of the foliation {}".format(
+                i, j, left, d))
+        return dict(nt=True, labels=["composite-refused"],
+                    show=common.show(d))
+    new = d.interchange(i, j, left=left)
+    specs.well_typed(new, "interchange of slices")
+    expected = d.boxes
+    expected[lo], expected[lo + 1] = expected[lo + 1], expected[lo]
+    require(all(x is y for x, y in zip(new.boxes, expected))
+            and specs.tkey(new.dom) == specs.tkey(d.dom)
+            and specs.tkey(new.cod) == specs.tkey(d.cod),
+            "C05:boxes-not-permuted", lambda: "{} -> {}".format(d, new))
+    return dict(nt=True, labels=["composite-moved"], show=common.show(d))
+
+
+@st.composite
 def history_cases(draw, tier):
     cls = draw(st.sampled_from(["monoidal", "rigid"]))
     spec = draw(gen.diagrams(cls, max_boxes=7, max_width=5, min_boxes=2,
@@ -276,6 +318,10 @@ def selftest_model():
 
 
 core.register("C05", [
+    Facet("composite_boxes", composite_cases, check_composite, n_quick=600,
+          shards_quick=2, rule="adjacent moves on foliations (boxes that are "
+          "diagrams): refused with InterchangerError exactly when the slices "
+          "share a wire"),
     Facet("single", single_cases, check_single, n_quick=1600, shards_quick=8,
           rule=RULE),
     Facet("history", history_cases, check_history, n_quick=400,
